@@ -86,6 +86,20 @@ func genFuzzy(r *Rng, tier string, idx int, args map[string]string) []string {
 			case x < 75:
 				t = fzRandom(r, 0, 12)
 				p = fzSubseq(r, t)
+			case x < 78:
+				// a long target and a pattern that follows it for 38..70 characters in a row: the library's `int` score wraps
+				// (the adjacency bonus triples per adjacent match), and so must the model
+				t = ""
+				for len(t) < 75 {
+					t += Pick(r, fzTargets) + Pick(r, []string{"-", " ", "_", "/"})
+				}
+				k := r.Range(38, 70)
+				a := r.Range(0, len(t)-k)
+				p = t[a : a+k]
+				if r.Chance(1, 2) && len(p) > 3 { // one character dropped somewhere
+					d := r.Range(1, len(p)-2)
+					p = p[:d] + p[d+1:]
+				}
 			case x < 92:
 				p, t = fzRandom(r, 0, 4), fzRandom(r, 0, 14)
 			default: // NUL in the target: the library's end-of-text sentinel
